@@ -56,7 +56,7 @@ def main():
         # a re-run without the control keeps the control result measured before
         old_controls = {r["id"]: r["other_property_quick"] for r in json.load(open(outp0))["rows"]}
     for it in items:
-        if only and only not in it["id"]:
+        if only and not any(o in it["id"] for o in only.split(",")):
             continue
         other = "C14" if it["property"] == "C03" else "C03"
         r = run_check(it["patch"], it["property"], tier)
